@@ -123,6 +123,70 @@ example : CmdOK cfg14.env cmdGetK ∧ Small (stream [cmdGetK, cmdPing]) ∧
     replyCount (run cfg14 [(stream [cmdGetK, cmdPing]).take 6, ((stream [cmdGetK, cmdPing]).drop 6).take 11,
       (stream [cmdGetK, cmdPing]).drop 17]) = 2 := by decide
 
+/-! ## 1b. the overflow guard (`buffer.len() + n > max_buffer_size`) -/
+
+def hasOverflow : List Action → Bool
+  | [] => false
+  | .overflow :: _ => true
+  | _ :: rest => hasOverflow rest
+
+/-- full statement: under every legal configuration (`1 ≤ read_size`) a pipeline — of ANY length —
+    whose every frame leaves `read_size - 1` bytes of room below `max_buffer_size` never gets
+    `-ERR buffer overflow`: every command is executed once, in order, for every segmentation.
+    (The slack is what the code as it is really needs: before a read the buffer holds at most
+    `|frame| - 1` bytes of an incomplete frame, and the read brings at most `read_size` more; with
+    `|frame| + read_size > max + 1` a segmentation exists that trips the guard.  For a stream that
+    fits into `max_buffer_size` altogether no slack is needed: `segmentation_independent`.) -/
+def C04_no_overflow_below_limit (onR : Config → St → Bytes → St × List Action) : Prop :=
+  ∀ (cfg : Config), cfg.headerLen = 14 → cfg.codec = codec1 → 1 ≤ cfg.env.depth → 1 ≤ cfg.readSize →
+  ∀ (cmds : List Cmd) (segs : List Bytes), segs.flatten = stream cmds → Small (stream cmds) →
+    (∀ c ∈ cmds, (encCmd c).length + cfg.readSize ≤ cfg.maxBuffer + 1) → (∀ c ∈ cmds, CmdOK cfg.env c) →
+    ((segs.flatMap (fun s => splitReads cfg.readSize s.length s)).foldl
+      (fun (acc : St × List Action) c => let (s', a) := onR cfg acc.1 c; (s', acc.2 ++ a)) (St.init, [])).2
+      = execAll cmds
+
+theorem no_overflow_below_limit : C04_no_overflow_below_limit onRead :=
+  fun cfg h14 hc hd hrs cmds segs h hs hfr hok => run_wf_frames cfg h14 hc hd hrs cmds segs h hs hfr hok
+
+/-- the slack is tight: `max_buffer_size = read_size = 32`, two 14-byte PINGs and one more byte
+    of a third — 14 bytes of incomplete frame left, a read of 32 … the guard fires in the code as it
+    is as soon as `|frame| + read_size > max + 1` and the reads fall badly -/
+example : hasOverflow (run { cfg14 with readSize := 32, maxBuffer := 32 }
+    [(stream [cmdPing, cmdPing, cmdPing, cmdPing, cmdPing]).take 32, (stream [cmdPing, cmdPing, cmdPing, cmdPing, cmdPing]).drop 32]) = true := by
+  decide
+
+/-- full statement: a pipeline that fits into `max_buffer_size` ALTOGETHER never gets the overflow
+    error, whatever the read size and the segmentation (no slack needed: the buffer never holds
+    more than what was sent) -/
+def C04_no_overflow_when_stream_fits (onR : Config → St → Bytes → St × List Action) : Prop :=
+  ∀ (cfg : Config), cfg.headerLen = 14 → cfg.codec = codec1 → 1 ≤ cfg.env.depth →
+  ∀ (cmds : List Cmd) (segs : List Bytes), segs.flatten = stream cmds → Small (stream cmds) →
+    (stream cmds).length ≤ cfg.maxBuffer → (∀ c ∈ cmds, CmdOK cfg.env c) →
+    ((segs.flatMap (fun s => splitReads cfg.readSize s.length s)).foldl
+      (fun (acc : St × List Action) c => let (s', a) := onR cfg acc.1 c; (s', acc.2 ++ a)) (St.init, [])).2
+      = execAll cmds
+
+theorem no_overflow_when_stream_fits : C04_no_overflow_when_stream_fits onRead :=
+  fun cfg h14 hc hd cmds segs h hs hmax hok => run_wf cfg h14 hc hd cmds segs h hs hmax hok
+
+/-- COUNTEREXAMPLE for the guard that adds the CAPACITY of the read buffer instead of the bytes read
+    (`onReadCap`: `buffer.len() + read_buf.len() > max`): with `max_buffer_size = read_size = 64`
+    (accepted by PerformanceConfig::validate) a 28-byte pipeline cut in two — 36 bytes of room to
+    spare — is answered `-ERR buffer overflow` -/
+theorem overflow_guard_capacity_counterexample : ¬ C04_no_overflow_when_stream_fits onReadCap := by
+  intro h
+  have := h { cfg14 with readSize := 64, maxBuffer := 64 } rfl rfl (by decide)
+    [cmdPing, cmdPing] [(stream [cmdPing, cmdPing]).take 5, (stream [cmdPing, cmdPing]).drop 5]
+    (by decide) (by decide) (by decide) (by decide)
+  have hov : hasOverflow (runCap { cfg14 with readSize := 64, maxBuffer := 64 }
+      [(stream [cmdPing, cmdPing]).take 5, (stream [cmdPing, cmdPing]).drop 5]) = true := by decide
+  unfold runCap at hov
+  rw [this] at hov
+  exact absurd hov (by decide)
+
+example : hasOverflow (run { cfg14 with readSize := 64, maxBuffer := 64 }
+    [(stream [cmdPing, cmdPing]).take 5, (stream [cmdPing, cmdPing]).drop 5]) = false := by decide
+
 /-! ## 2. malformed input -/
 
 /-- full statement: arbitrary bytes after a well-formed pipeline never crash the connection, never
